@@ -13,7 +13,7 @@ const (
 	c10OpenSentIn
 	c10OpenConfirmIn
 	c10EstablishedIn
-	c10BothOpenSent   // both connections up (collision phase)
+	c10BothOpenSent            // both connections up (collision phase)
 	c10InEstablishedOutStopped // inbound Established: the manager has disabled the outbound FSM
 	c10HoldDown
 	c10ActiveAfterTCPFail // outbound FSM waiting for the connect-retry timer
@@ -21,7 +21,7 @@ const (
 )
 
 type c10result struct {
-	conns []*symConn
+	conns     []*symConn
 	inSession []bool // conn's FSM was inside OpenSent/OpenConfirm/Established when the stop was issued
 }
 
@@ -46,7 +46,7 @@ func Verif_C10_peer_stop() {
 	if verifTier() >= 1 {
 		d = 2
 	}
-	verifNote("real peer (manager, FSMs, readers, dial goroutine) brought under the base schedule to one of 12 situations (dial pending, dial completing after cancel, OpenSent/OpenConfirm/Established on either direction, both connections in OpenSent, inbound Established with outbound disabled, hold-down, Active after a TCP failure); then one more remote event is injected WITHOUT waiting (OPEN / KEEPALIVE / UPDATE / FIN, symbolically chosen or none) and peer.stop() is called: all schedules of the stop against the in-flight processing with at most 1 (quick) / 2 (thorough) delays; happens-before race detection on every memory access of corebgp code; deadlock = violation")
+	verifNote("real peer (manager, FSMs, readers, dial goroutine) brought under the base schedule to one of 12 situations (dial pending, dial completing after cancel, OpenSent/OpenConfirm/Established on either direction, both connections in OpenSent, inbound Established with outbound disabled, hold-down, Active after a TCP failure); then one more remote event is injected WITHOUT waiting (none / the message that is legal progress in that state / FIN; thorough also an unexpected message / a received Cease) and peer.stop() is called: all schedules of the stop against the in-flight processing with at most 1 (quick) / 2 (thorough) delays; happens-before race detection on every memory access of corebgp code; deadlock = violation")
 	sc := verifChoose("scenario", c10NumScenarios)
 	passive := sc == c10OpenSentIn || sc == c10OpenConfirmIn || sc == c10EstablishedIn
 	e := newPenv(passive)
@@ -107,20 +107,46 @@ func Verif_C10_peer_stop() {
 	verifDelayBound(d)
 	// one more event in flight while the stop is issued
 	if racing != nil {
-		fl := verifChoose("in-flight", 5)
-		switch fl {
-		case 1:
-			racing.send(openMessageType, e.openBody())
-		case 2:
-			racing.send(keepAliveMessageType, nil)
-		case 3:
-			racing.send(updateMessageType, []byte{0, 0, 0, 0})
-		case 4:
-			racing.remoteClose(1)
+		// the racing connection's session state when the stop is issued
+		rstate := stOpenSent
+		switch sc {
+		case c10OpenConfirmOut, c10OpenConfirmIn:
+			rstate = stOpenConfirm
+		case c10EstablishedOut, c10EstablishedIn, c10InEstablishedOutStopped:
+			rstate = stEstablished
 		}
-		// with an event in flight the session may already be ending for another reason
-		// (FSM error, FIN) when the stop lands: whether a Cease precedes the close is don't-care then
-		if fl != 0 {
+		nfl := 3
+		if verifTier() >= 1 {
+			nfl = 5
+		}
+		fl := verifChoose("in-flight", nfl)
+		endsSession := false
+		switch fl {
+		case 1: // the message that is legal progress in this state: the session goes on
+			switch rstate {
+			case stOpenSent:
+				racing.send(openMessageType, e.openBody())
+			case stOpenConfirm:
+				racing.send(keepAliveMessageType, nil)
+			default:
+				racing.send(updateMessageType, []byte{0, 0, 0, 0})
+			}
+		case 2:
+			racing.remoteClose(1)
+			endsSession = true
+		case 3: // a message that is unexpected in this state: FSM error
+			if rstate == stEstablished {
+				racing.send(openMessageType, e.openBody())
+			} else {
+				racing.send(updateMessageType, []byte{0, 0, 0, 0})
+			}
+			endsSession = true
+		case 4:
+			racing.send(notificationMessageType, []byte{NOTIF_CODE_CEASE, 0})
+			endsSession = true
+		}
+		// if the in-flight event ends the session for another reason, whether a Cease precedes the close is don't-care
+		if endsSession {
 			for i := range res.inSession {
 				if res.conns[i] == racing {
 					res.inSession[i] = false
